@@ -81,8 +81,10 @@ def rand_value(rng, ty):
 
 
 def spell(rng, name):
-    """a BCL key the matching rule admits for Go field `name`: case changes and underscores"""
+    """a BCL key the matching rule admits for Go field `name`: case changes, added AND removed underscores"""
     out = []
+    if "_" in name and rng.random() < 0.5:
+        name = name.replace("_", "") if rng.random() < 0.6 else name.replace("_", "", 1)
     for ch in name:
         if rng.random() < 0.2:
             out.append("_")
@@ -95,7 +97,7 @@ def spell(rng, name):
 
 SCALARS = [INT, FLT, STR, BOOL]
 OTHERS = ["int8", "int32", "int64", "uint", "uint8", "float32", "complex128", "map", "array", "func", "chan", "uintptr", "bytes", "rune"]
-FNAMES = ["Host", "Port", "LocalPort", "On", "X", "Xy", "MaxLatency", "Name", "Note", "Deep", "A1", "Foo_Bar", "URL"]
+FNAMES = ["Host", "Port", "LocalPort", "On", "X", "Xy", "MaxLatency", "Name", "Note", "Deep", "A1", "Foo_Bar", "URL", "Local_Port", "Max_Retry_Count"]
 
 
 def gen_struct(rng, depth, family_only=False, with_name=True):
@@ -148,7 +150,8 @@ def block_for(rng, ty, btype, fault=0.0, nested_name=True):
     for f in type_fields(ty):
         if not exported(f["n"]) or f.get("emb"):
             continue
-        key = f["tag"] if f.get("tag") else spell(rng, f["n"])
+        # a tagged field is reachable by its tag and (if no other field claims it) by its Go name as well
+        key = f["tag"] if f.get("tag") and rng.random() < 0.6 else spell(rng, f["n"])
         t = f["t"]
         if f["n"] == "Name" and t["k"] == "string" and not f.get("tag"):
             if rng.random() < 0.7:
@@ -162,11 +165,11 @@ def block_for(rng, ty, btype, fault=0.0, nested_name=True):
             bt = t["name"] if t["k"] == "named" else key.split(".")[0]
             child = block_for(rng, t, bt, fault, nested_name)
             # the child's key in the parent is type or type.name; it must fold to the Go field name
-            child["t"] = spell(rng, f["n"]) if not f.get("tag") else f["tag"].split(".")[0]
+            child["t"] = spell(rng, f["n"]) if not (f.get("tag") and key == f["tag"]) else f["tag"].split(".")[0]
             if t["k"] == "named" and rng.random() < 0.9:
                 child["t"] = spell(rng, f["n"])
             ckey = child["t"] + ("." + child["n"] if child["n"] else "")
-            fs.append([ckey if not f.get("tag") else f["tag"], child])
+            fs.append([ckey if not (f.get("tag") and key == f["tag"]) else f["tag"], child])
         elif t["k"] == "iface":
             fs.append([key, rand_value(rng, rng.choice(SCALARS))])
     if rng.random() < fault:
